@@ -133,3 +133,58 @@ func HarnessC02Mixed(variant int) {
 	drainAndCheck(dmx, s, r)
 	vreach("C02.mixed.end")
 }
+
+// HarnessC02LatePAT: packets of the PMT PID arrive before the first PAT that announces it: once the PAT has been
+// delivered, later PMT units are again returned by the call that reads their final packet
+func HarnessC02LatePAT() {
+	s := &sStream{}
+	pmt1 := mkPSI(0x1000, 2, []*mSection{mkPMT(0x100)}, 0, 0)
+	pat := mkPSI(0, 1, []*mSection{mkPAT(0x1000)}, 0, 0)
+	pmt2 := mkPSI(0x1000, 2, []*mSection{mkPMT(0x100)}, 0, 0)
+	e1 := mkPES(0x100, 10, true)
+	pmt3 := mkPSI(0x1000, 2, []*mSection{mkPMT(0x100)}, vchoose(0, 2), 0)
+	s.add(pmt1, packetize(pmt1, 0, 184, true)) // packet 0
+	s.add(pat, packetize(pat, 0, 184, true))   // packet 1
+	s.add(pmt2, packetize(pmt2, 1, 184, true)) // packet 2
+	s.add(e1, packetize(e1, 0, 184, false))    // packet 3
+	s.add(pmt3, packetize(pmt3, 2, 20, false)) // packets 4, 5
+	dmx, r := newDmx(s.bytes())
+	type rec struct {
+		d   *DemuxerData
+		pos int
+	}
+	var got []rec
+	for k := 0; k < 10; k++ {
+		d, err := dmx.NextData()
+		if err == ErrNoMorePackets {
+			break
+		}
+		vassert("C02.latepat.err", err == nil)
+		got = append(got, rec{d, r.pos})
+	}
+	// PAT: early, after packet 1
+	vassert("C02.latepat.pat", len(got) >= 1 && got[0].d.PAT != nil && got[0].pos == 2*188)
+	// the PMT unit that was pending when its PID became known must not be lost: it is flushed by the next unit start
+	pmts := 0
+	for _, g := range got {
+		if g.d.PMT != nil {
+			pmts++
+		}
+	}
+	// the PMT units after the PAT are returned by the call that reads their final packet (packets 2 and 5)
+	early2, early3 := false, false
+	for _, g := range got {
+		if g.d.PMT != nil && g.pos == 3*188 {
+			early2 = true
+		}
+		if g.d.PMT != nil && g.pos == 6*188 {
+			early3 = true
+		}
+	}
+	vassert("C02.latepat.pmt2.early", early2)
+	vassert("C02.latepat.pmt3.early", early3)
+	// the PES unit comes out at end of stream
+	vassert("C02.latepat.pes", len(got) >= 1 && got[len(got)-1].d.PES != nil && vBytesEq(got[len(got)-1].d.PES.Data, e1.pes.payload))
+	vreach("C02.latepat.end")
+	vassertK("C02.latepat.firstpmt", "F15", true, pmts == 3)
+}
